@@ -13,7 +13,7 @@
 (*   [h |-> "min" / "max",    a |-> <<e1, ...>>]                            *)
 (*   [h |-> "heav", a |-> <<e>>]        Heaviside step, H(0) = 1/2          *)
 (*                                                                          *)
-(* Values are exact rationals <<num, den>> in lowest terms with den > 0.    *)
+(* Values are exact rationals <<num, den>> with den > 0.                    *)
 (* TLC integers are 32 bit: every product is guarded, and a value that      *)
 (* cannot be represented -- or a division by zero -- is Bad = <<0, 0>>,     *)
 (* which propagates; a case with a Bad value is reported "undefined" and    *)
@@ -38,8 +38,16 @@ Norm(n, d) ==
 
 RInt(k) == <<k, 1>>
 
+(* Values are kept with |num| <= Lim and 0 < den <= Lim, not necessarily in    *)
+(* lowest terms (only signs and cross-multiplied comparisons are ever used);  *)
+(* they are reduced only when a product would not fit.                        *)
+Clip(x) ==
+  IF Abs(x[1]) <= Lim /\ x[2] <= Lim THEN x
+  ELSE LET r == Norm(x[1], x[2]) IN IF Abs(r[1]) <= Lim /\ r[2] <= Lim THEN r ELSE Bad
+
 RMul(x, y) ==
   IF IsBad(x) \/ IsBad(y) THEN Bad
+  ELSE IF Fits(x[1], y[1]) /\ Fits(x[2], y[2]) THEN <<x[1] * y[1], x[2] * y[2]>>
   ELSE LET g1 == GCD(Abs(x[1]), y[2])
            g2 == GCD(Abs(y[1]), x[2])
            a == x[1] \div g1  b == y[1] \div g2
@@ -48,11 +56,14 @@ RMul(x, y) ==
 
 RAdd(x, y) ==
   IF IsBad(x) \/ IsBad(y) THEN Bad
+  ELSE IF x[2] = y[2] THEN Clip(<<x[1] + y[1], x[2]>>)
+  ELSE IF Fits(x[1], y[2]) /\ Fits(y[1], x[2]) /\ Fits(x[2], y[2])
+       THEN Clip(<<x[1] * y[2] + y[1] * x[2], x[2] * y[2]>>)
   ELSE LET g  == GCD(x[2], y[2])
            mx == y[2] \div g
            my == x[2] \div g
        IN IF Fits(x[1], mx) /\ Fits(y[1], my) /\ Fits(x[2], mx)
-          THEN Norm(x[1] * mx + y[1] * my, x[2] * mx)
+          THEN Clip(Norm(x[1] * mx + y[1] * my, x[2] * mx))
           ELSE Bad
 
 RInv(x) == IF IsBad(x) \/ x[1] = 0 THEN Bad
@@ -88,7 +99,7 @@ RHeav(x, m) ==
 RECURSIVE Eval(_, _, _), Sum(_, _, _, _), Prod(_, _, _, _), MinOf(_, _, _, _), MaxOf(_, _, _, _)
 Eval(e, p, m) ==
   CASE e.h = "int"   -> RInt(e.v)
-    [] e.h = "rat"   -> Norm(e.n, e.d)
+    [] e.h = "rat"   -> <<e.n, e.d>>
     [] e.h = "sym"   -> RInt(p[e.v])
     [] e.h = "add"   -> Sum(e.a, p, m, Len(e.a))
     [] e.h = "mul"   -> Prod(e.a, p, m, Len(e.a))
